@@ -90,7 +90,8 @@ def gen_scenario(rng):
             objects.append({'kind': 'pp', 'json': jm, 'value': jsonable(c11.gen(rng, 0, jm))})
     repo = c06.gen_history(rng, 14)
     objects.append({'kind': 'ghist', 'repo': mg.describe(repo), 'text': rng.choice(["BUG-7", "fix"])})
-    objects.append({'kind': 'hdoc', 'level': rng.choice([1, 2]), 'bound': rng.random() < 0.5})
+    objects.append({'kind': 'hdoc', 'level': rng.choice([1, 2, 2]), 'bound': rng.random() < 0.6,
+                    'target': rng.choice(['object', 'object', 'method'])})
     confs = [gen_conf(rng) for _ in range(rng.randint(3, 5))]
     requests = []
     for _ in range(rng.randint(16, 30)):
